@@ -100,7 +100,7 @@ def run(c):
         for f in futs: f.result()
     for rec in c.cov["stage_a"]:
         rec["laws"] = "RdTotal + ASSUME RdCases" if "rd" in rec["config"] else LAWS
-    nsim = 1500 if thorough else 160
+    nsim = 1500 if thorough else 220
     sim = {}
     def job_sim():
         sim["res"] = c.tlc(sd, "MC_X03", "MC_X03_sim", workers=1, simulate="file=beh,num=%d" % nsim, depth=8, timeout=1200)
@@ -157,7 +157,7 @@ def run(c):
     cases = [dict(src=x["src"], inp=x["inp"], alt=x["alt"]) for x in bases]
     cut_from = [x for x in bases if x["ok"] and 6 <= len(x["inp"]) <= 160 and x["m"] in BOUND_MSGS]
     ncut = 0
-    for x in rng.sample(cut_from, min(len(cut_from), 500 if thorough else 50)):          # every truncation point of accepted inputs
+    for x in rng.sample(cut_from, min(len(cut_from), 500 if thorough else 80)):          # every truncation point of accepted inputs
         for i in range(len(x["inp"])):
             k = tuple(x["inp"][:i])
             if k in seen: continue
@@ -179,7 +179,7 @@ def run(c):
         f1.result(); f2.result()
     ev1, ev2 = read_ndjson(o1), read_ndjson(o2)
     events = ev1 + ev2
-    per = 6 if thorough else 2
+    per = 6 if thorough else 3
     def root_case(idx):
         """the case (as given to `replay`) that reproduces event idx: the outer input of a carried message, with its second message"""
         j = idx
@@ -210,7 +210,8 @@ def run(c):
         obs = ""
         for r, r2 in zip(e["f"], e["g"]):
             if r["n"] + "." + r["a"] == field:
-                obs = "; observed %s %s, second reading %s %s" % (r["st"], show(r["v"]), r2["st"], show(r2["v"]))
+                obs = "; observed %s %s, second reading %s %s%s" % (r["st"], show(r["v"]), r2["st"], show(r2["v"]),
+                                                                     (" in " + (r["fn"] or r2["fn"])) if (r["fn"] or r2["fn"]) else "")
         what = "%s: %s of a received %s (%s)%s; input %s" % (op, cls, msg, e["src"], obs, hexs(e["inp"]))
         return (op, cls, what, dict(case=root_case(idx), message=msg, reading=field,
                                     how="harness/cmd/received replay [case] out.ndjson; validate out.ndjson with spec/trace/Trace_X03"))
